@@ -6,6 +6,26 @@ func init() {
 	machineByID[3] = func() Machine { return &bloomMem{} }
 	machineByID[5] = func() Machine { return &hllMem{} }
 
+	machineByID[7] = func() Machine { return &cuckooMem{} }
+	ckNontrivial := func(r *RunResult) bool {
+		for i, op := range r.Ops {
+			if op.L[0].I() == ckInsert && r.Obs[i].Kind == 2 && len(r.Obs[i].L) == 2 && r.Obs[i].L[1].U() != 0 {
+				return true
+			}
+		}
+		return false
+	}
+	for _, p := range []string{"C02", "C13", "C14"} {
+		registry[p] = []Suite{
+			{Name: "cuckoo-mem", NewMachine: func() Machine { return &cuckooMem{} }, Gen: genCuckoo(p),
+				Monitors: []Monitor{monitorCuckoo("mem", p)}, OpName: cuckooOpName,
+				Nontrivial: ckNontrivial, Rule: "history in which at least one insert entered the eviction branch (both candidate buckets full); distinct by SHA-1",
+				Quick: 150, Thorough: 4000},
+		}
+	}
+	registry["C02"] = append(registry["C02"], Suite{Name: "murmur", NewMachine: func() Machine { return &cuckooMem{} }, Gen: genMurmur,
+		OpName: cuckooOpName, Rule: "murmur3 model vs getHash on random strings of every length 0..48", Quick: 20, Thorough: 400})
+
 	registry["C01"] = []Suite{
 		{Name: "bloom-mem", NewMachine: func() Machine { return &bloomMem{} }, Gen: genC01,
 			Monitors: []Monitor{monitorBloom("mem")}, OpName: bloomOpName,
